@@ -212,7 +212,17 @@ func runC16(c *Ctx) {
 				}
 			}
 		})
-		if c.Check("R16.2", "Generate: the preparation step (creates the directory, creates no file) is identified", gen.Pos(), prepErr != nil, "no callee of Generate reaches os.Mkdir without reaching os.OpenFile") {
+		dynamicCalls := false
+		allCalls(fn, func(call ssa.CallInstruction) {
+			if call.Common().StaticCallee() == nil && !call.Common().IsInvoke() {
+				if _, isBuiltin := call.Common().Value.(*ssa.Builtin); !isBuiltin {
+					dynamicCalls = true
+				}
+			}
+		})
+		if prepErr == nil && dynamicCalls {
+			c.Undecided("R16.2", "Generate: the preparation step (creates the directory, creates no file) is identified", gen.Pos(), "Generate runs its steps through function values: which call is the preparation step, and what it dominates, was not followed")
+		} else if c.Check("R16.2", "Generate: the preparation step (creates the directory, creates no file) is identified", gen.Pos(), prepErr != nil, "no callee of Generate reaches os.Mkdir without reaching os.OpenFile") {
 			n := 0
 			allCalls(fn, func(call ssa.CallInstruction) {
 				cf := call.Common().StaticCallee()
